@@ -118,7 +118,10 @@ def exec_of(result, xid):
 
 def judge(pid, api, verdict, replay_dir_name=None):
     """Feed the VMSG messages tagged with pid into the verdict. INFRA-tagged messages raise."""
-    infra = [m for m in api["msgs"] if "INFRA" in m["tags"]]
+    # a message tagged INFRA *and* with properties (the library's own encoder failing to build the codeword of an accepted
+    # configuration: the reference of a decoder execution is missing) is an infrastructure problem for every check but
+    # the ones that own that failure
+    infra = [m for m in api["msgs"] if "INFRA" in m["tags"] and pid not in m["tags"]]
     if infra:
         raise vlib.Infra("driver/protocol problem reported by the trace spec: %r" % infra[:3])
     # a crash / sanitizer report inside a protocol-conforming execution of this check's own workload
